@@ -3,3 +3,4 @@ From MV Require Import Base Regex Typing Py PyObj Glue.
 From Coq Require Import String.
 Definition check_struct_src (c : role * enzyme * string * string * string) : bool := true.
 Definition check_transcribe_src (c : string * string) : bool := true.
+Definition check_resistance_src (c : list (option (list string)) * option string) : bool := true.
